@@ -234,7 +234,9 @@ def run(prog, check):
     n2 = 0
     for ci, m, it in units:
         seen_b = set()
-        for lk, guards, where in it.breaks:
+        for lk, guards, where, selects in it.breaks:
+            if not selects:
+                continue       # the search only answers "is there one": nothing is chosen by position
             fnq = m.qualname
             key = '%s::%s::first-match(%s | %s)' % (where.split(':')[0], ci.name, lk, ','.join(sorted(repr(g) for g in guards if mentions_elem(g.key(), lk))))
             if key in seen_b:
